@@ -107,6 +107,13 @@ class Routes:
             cp = s.CreateCopy(unit=v)
             self.cmp("Scalar.CreateCopy(unit)", cp.value, [r0], case, au, av, [x0])
             self.meta("Scalar.CreateCopy(unit)", cp, c, qt, v, case)
+            # ... also when the category is named along with the unit (its own one: nothing else changes)
+            cpc = s.CreateCopy(unit=v, category=c)
+            self.cmp("Scalar.CreateCopy(unit, category)", cpc.value, [r0], case, au, av, [x0])
+            self.meta("Scalar.CreateCopy(unit, category)", cpc, c, qt, v, case)
+            acc = Array(c, list(xs), u).CreateCopy(unit=v, category=c)
+            self.cmp("Array.CreateCopy(unit, category)", acc.GetValues(), ref, case, au, av, xs, list)
+            self.meta("Array.CreateCopy(unit, category)", acc, c, qt, v, case)
             o = Owner()
             o.a = s
             ChangeScalars(o, a=(None, v))
@@ -170,9 +177,18 @@ class Routes:
             self.cmp("UnitDatabase.Convert(u,[(v,1)])", db.Convert(qt, u, [(v, 1)], float(x0)), [r0], case, au, av, [x0])
             self.cmp("UnitDatabase.Convert([(u,1)],v)", db.Convert(qt, [(u, 1)], v, float(x0)), [r0], case, au, av, [x0])
             self.cmp("UnitDatabase.Convert(((u,1),),((v,1),))", db.Convert(qt, ((u, 1),), ((v, 1),), float(x0)), [r0], case, au, av, [x0])
+            # numbers that are not Python floats inside a list / a tuple are numbers all the same
+            import fractions
+
+            self.cmp("UnitDatabase.Convert(list of numpy.longdouble)", [float(t) for t in db.Convert(qt, u, v, [np.longdouble(x) for x in xs])], ref, case, au, av, xs, list)
+            self.cmp("UnitDatabase.Convert(tuple of fractions.Fraction)", [float(t) for t in db.Convert(qt, u, v, tuple(fractions.Fraction(float(x)) for x in xs))], ref, case, au, av, xs, list)
+            self.cmp("Array[list of numpy.float64 and float].GetValues", Array(c, [np.float64(x) if k % 2 else float(x) for k, x in enumerate(xs)], u).GetValues(v), ref, case, au, av, xs, list)
             ints = [int(x) for x in xs if abs(x) < 1e15 and float(x).is_integer()]
             if ints:
                 iref = [db.Convert(qt, u, v, float(i)) for i in ints]
+                self.cmp("UnitDatabase.Convert(list of numpy.int64)", db.Convert(qt, u, v, [np.int64(i) for i in ints]), iref, case, au, av, ints, list)
+                self.cmp("UnitDatabase.Convert(tuple of numpy.int32)", db.Convert(qt, u, v, tuple(np.int32(i) for i in ints if abs(i) < 2**31)), [t for t, i in zip(iref, ints) if abs(i) < 2**31], case, au, av, [i for i in ints if abs(i) < 2**31], tuple)
+                self.cmp("Array[list of numpy.int64].GetValues", Array(c, [np.int64(i) for i in ints], u).GetValues(v), iref, case, au, av, ints, list)
                 self.cmp("UnitDatabase.Convert(int)", db.Convert(qt, u, v, ints[0]), iref[:1], case, au, av, ints[:1])
                 self.cmp("UnitDatabase.Convert(list of int)", db.Convert(qt, u, v, list(ints)), iref, case, au, av, ints, list)
                 self.cmp("UnitDatabase.Convert(ndarray i8)", db.Convert(qt, u, v, np.array(ints, dtype=np.int64)), iref, case, au, av, ints, np.ndarray)
